@@ -7,6 +7,10 @@ of a trie).  `H` is the hash function (SHA3-256 in the implementation and in the
 -/
 import Verif.Lemmas.MptCodec
 import Verif.Lemmas.MptPartial
+import Verif.Lemmas.EventCodec
+import Verif.Lemmas.MergeRound
+import Verif.Lemmas.MptInsert
+import Verif.Lemmas.DeadNodes
 namespace Verif.Props.C14
 open Verif.Codec
 open Verif.Mpt (Bytes Nib Node key WFn nibChar lookup)
@@ -92,6 +96,121 @@ example : ∃ (H : Bytes → Bytes) (get : Bytes → Option Bytes) (t : Node), (
   have : e.2 = reprOf (fun _ => List.replicate 32 0) (.leaf 1 [] [65]) [] := by
     simp only [nodesOf, List.mem_singleton] at he; rw [he]
   rw [this]
+
+/-! ### Self-keyed over the event stream (store work package's model `Verif.Model.MptStore`)
+
+`insertE` / `deleteE` list, in Go's call order, the `insertNode(old, new)` / `deleteNode(n)` calls of one Insert / Delete;
+`mergeEvents` the calls a merge replays.  `Trie.insertNode` stores `new.encode H` under `new.key H`. -/
+
+open Verif.MptStore in
+/-- what is stored for a node reference is the codec's encoding of the node, under the hash of its own content, and
+    decodes back to it -/
+theorem ref_self_keyed (H : Bytes → Bytes) (hH : ∀ b, (H b).length = 32) (r : Ref) (ht : r.t.isEmpty = false) :
+    r.key H = H (hashBytes (reprOf H r.t r.pos)) ∧ r.encode H = encode (reprOf H r.t r.pos) ∧
+    decode (r.encode H) = .ok (reprOf H r.t r.pos) := by
+  refine ⟨key_eq_hash_reprOf H r.t r.pos ht, ref_encode_eq H r ht, ?_⟩
+  rw [ref_encode_eq H r ht]
+  exact decode_encode _ (reprOf_wf H hH r.t r.pos)
+
+open Verif.MptStore in
+/-- **C14_self_keyed over events**: every `put` event emitted by an Insert (`insertE`) or a Delete (`deleteE`) at trie
+    version `v` carries a real node; the store receives the codec encoding of that node under key = H(hashBytes(node)),
+    the bytes decode back to the node, and the node's origin and version are `v` (64-bit) -/
+theorem C14_self_keyed_events (H : Bytes → Bytes) (hH : ∀ b, (H b).length = 32) (v : Nat) (b : Bytes) (t : Node)
+    (pre p : List Nib) (old : Option Ref) (new : Ref)
+    (he : Event.put old new ∈ (insertE v b t pre p).2 ∨ Event.put old new ∈ (deleteE v t pre p).2) :
+    new.key H = H (hashBytes (reprOf H new.t new.pos)) ∧ new.encode H = encode (reprOf H new.t new.pos) ∧
+    decode (new.encode H) = .ok (reprOf H new.t new.pos) ∧
+    (reprOf H new.t new.pos).origin = w64 v ∧ (reprOf H new.t new.pos).version = w64 v := by
+  have hne : new.t.isEmpty = false := by
+    rcases he with he | he
+    · exact insertE_put_nonempty v b t pre p _ he
+    · exact deleteE_put_nonempty v t pre p _ he
+  have ho : origin new.t = v := by
+    rcases he with he | he
+    · exact insertE_new_origin v b t pre p _ he
+    · exact deleteE_new_origin v t pre p _ he
+  obtain ⟨h1, h2, h3⟩ := ref_self_keyed H hH new hne
+  refine ⟨h1, h2, h3, ?_⟩
+  cases hn : new.t with
+  | empty => rw [hn] at hne; simp [Node.isEmpty] at hne
+  | leaf o lp lv => rw [hn] at ho; simp [reprOf, origin] at ho ⊢; rw [ho]
+  | full o ch val => rw [hn] at ho; simp [reprOf, origin] at ho ⊢; rw [ho]
+  | ext o ep c => rw [hn] at ho; simp [reprOf, origin] at ho ⊢; rw [ho]
+
+/-- non-vacuity: inserting into a one-leaf trie emits put events (a leaf split: two leaves and a branch) -/
+example : (Verif.MptStore.insertE 3 [66] (.leaf 1 [1, 2] [65]) [] [1, 3]).2.length = 4 := by decide
+
+open Verif.MptStore in
+/-- the calls a merge replays on the parent (`mergeEvents`: the child's changes as `insertNode(old, new)`, its deletes as
+    `deleteNode`): every replayed `put` of a real node is self-keyed in the same sense — nodes merged from a child keep
+    their key, bytes and origin (real nodes: that the child's collector only holds nodes produced by put events, which
+    are real by `C14_self_keyed_events`, is the hypothesis `hreal`) -/
+theorem C14_self_keyed_merge (H : Bytes → Bytes) (hH : ∀ b, (H b).length = 32) (cs : List (Change Ref)) (ds : List Ref)
+    (hreal : ∀ c ∈ cs, c.new.t.isEmpty = false) (old : Option Ref) (new : Ref)
+    (he : Event.put old new ∈ mergeEvents cs ds) :
+    new.key H = H (hashBytes (reprOf H new.t new.pos)) ∧ new.encode H = encode (reprOf H new.t new.pos) ∧
+    decode (new.encode H) = .ok (reprOf H new.t new.pos) := by
+  simp only [mergeEvents, List.mem_append, List.mem_map] at he
+  rcases he with ⟨c, hc, hce⟩ | ⟨d, _, hde⟩
+  · cases hce
+    exact ref_self_keyed H hH c.new (hreal c hc)
+  · cases hde
+
+open Verif.MptStore in
+/-- the hypothesis `hreal` of `C14_self_keyed_merge` holds for the changes of any child trie that was opened on a root
+    (`Trie.open`: empty collector) and executed Inserts / Deletes: its collector only holds nodes of `put` events, which
+    are real -/
+theorem C14_child_changes_real (H : Bytes → Bytes) (root : Bytes) (tree : Node) (v : Nat) (es : List Event)
+    (hes : ∀ e ∈ es, PutNonEmpty e) :
+    ∀ c ∈ ((Trie.open root tree v).applyEvents H es).cc.getChanges, c.new.t.isEmpty = false :=
+  getChanges_real _ (ccReal_applyEvents H es _ (by intro e he; simp [Trie.open] at he) hes)
+
+open Verif.MptStore in
+/-- … and the event streams of Insert / Delete satisfy `PutNonEmpty` -/
+theorem C14_events_put_real (v : Nat) (b : Bytes) (t : Node) (pre p : List Nib) :
+    (∀ e ∈ (insertE v b t pre p).2, PutNonEmpty e) ∧ (∀ e ∈ (deleteE v t pre p).2, PutNonEmpty e) :=
+  ⟨insertE_put_nonempty v b t pre p, deleteE_put_nonempty v t pre p⟩
+
+/-! ### Value nodes (type code 1) and typed reads -/
+
+/-- a value node round-trips for ANY value bytes (empty included) and any 64-bit tracker; its type code is 1, its hash
+    input is the value itself, and it has a hash iff the value is non-empty (`GetHashBytes` returns nil otherwise) -/
+theorem C14_value_node (ver org : Nat) (hv : ver < 2 ^ 64) (ho : org < 2 ^ 64) (b : Bytes) :
+    decode (encode ⟨ver, org, .value b⟩) = .ok ⟨ver, org, .value b⟩ ∧ typeByte (.value b) = 1 ∧
+    hashBytes ⟨ver, org, .value b⟩ = b ∧ (hasHash ⟨ver, org, .value b⟩ = true ↔ b ≠ []) := by
+  refine ⟨decode_encode _ ⟨hv, ho, trivial⟩, rfl, rfl, ?_⟩
+  cases b <;> simp [hasHash]
+
+/-- typed read after a typed insert: if the value type's UnmarshalMsg inverts its MarshalMsg (`hum`) and no value
+    marshals to nothing (`hm`; such an Insert is a Delete), then `GetNodeValue` at the inserted path returns the inserted
+    value and every other path reads as before -/
+theorem C14_typed_read {α : Type} (m : α → Bytes) (um : Bytes → Option α) (hum : ∀ x, um (m x) = some x)
+    (hm : ∀ x, m x ≠ []) (t : Node) (hwf : Verif.Mpt.WF t) (v : Nat) (p q : List Nib) (x : α) :
+    getNodeValue um (Verif.Mpt.insert v (m x) t p) q = if q = p then .ok x else getNodeValue um t q := by
+  unfold getNodeValue
+  rw [Verif.Mpt.lookup_insert v (m x) (hm x) t p q hwf]
+  by_cases h : q = p
+  · simp [h, hum]
+  · simp [h]
+
+/-- instance: msgp strings (`MarshalMsg = AppendString`, `UnmarshalMsg = ReadStringBytes`), the typed value of suite
+    c14's ops `insstr` / `val` -/
+theorem C14_typed_read_string (t : Node) (hwf : Verif.Mpt.WF t) (v : Nat) (p q : List Nib) (x : { s : Bytes // s.length < 4294967296 }) :
+    let m := fun (y : { s : Bytes // s.length < 4294967296 }) => Verif.DeadNodes.appendString y.1
+    let um := fun b => match Verif.DeadNodes.readString b with
+      | .ok (s, _) => if h : s.length < 4294967296 then some (⟨s, h⟩ : { s : Bytes // s.length < 4294967296 }) else none
+      | _ => none
+    getNodeValue um (Verif.Mpt.insert v (m x) t p) q = if q = p then .ok x else getNodeValue um t q := by
+  intro m um
+  apply C14_typed_read m um _ _ t hwf v p q x
+  · intro y
+    have := Verif.DeadNodes.readString_appendString y.1 [] y.2
+    simp only [List.append_nil] at this
+    simp only [um, m, this, y.2, dite_true]
+  · intro y
+    simp only [m, Verif.DeadNodes.appendString]
+    split <;> (try split) <;> (try split) <;> simp
 
 /-- the one-pass computation run by the model driver (`modeld codec`, ops `store` / `save` / `snap`) is the
     specification: root key by `Verif.Mpt.key`, stored nodes by `nodesOf` -/
